@@ -18,7 +18,10 @@ def _worker(args):
     t = Tally(focus)
     ctx = mod.Ctx(t, params)
     for ln in lines:
-        ctx.edge(json.loads(json.loads(ln)))
+        e = json.loads(json.loads(ln))
+        t.cur = {"module": modname, "params": params, "edge": e}
+        ctx.edge(e)
+    t.cur = None
     ctx.close()
     return t
 
